@@ -292,8 +292,14 @@ def check_tetrahedral(run, pkg):
         other = NB[2][3] if NB[2][2] == NB[1] else NB[2][2]
         oknb = eqv(other, i)
         cand = NB[1]
-    elif NB[0] == "call" and NB[1] in ("numpy.delete",) and len(NB[2]) == 2:
-        cand = None
+    else:
+        # no test against the particle's own index, no deletion, and every slice keeps the head of the candidate list: nothing
+        # can have removed the particle itself (it is always among its own 5 nearest, at distance 0)
+        filt = any((x[0] in ("cmp", "comp", "phi")) or (x[0] == "call" and isinstance(x[1], str) and x[1].split(".")[-1] in ("delete", "setdiff1d", "isin", "where", "nonzero", "flatnonzero", "compress", "extract", "remove", "pop"))
+                   for x in walk(NB))
+        heads = all(x[1] in (NONE, C(0)) for x in walk(NB) if x[0] == "slice")
+        if not filt and heads:
+            oknb = False
     run.ob("R-SELECTK", fq, "drop-self", oknb, "the particle itself is removed from the candidates by its index", show(NB)[-60:], witness=None if oknb else "the particle itself may remain among the four (distance 0: cos undefined)", loc=loc, sound=True)
     if cand is not None:
         ops = []
